@@ -98,6 +98,10 @@ class Replayer:
                 lab = mm.group(1)
             if "WARNING: DATA RACE" in raw:
                 lab = "DATA RACE"
+            ma = re.search(r"^VERIF-ASSERT-FAILED (.*)$", raw, re.M)
+            if ma and "AssertFailure" in raw:
+                # a harness assertion failed in a goroutine other than the harness's own
+                return {"end": "assert", "label": ma.group(1).strip(), "observed": [], "raw": raw[-4000:]}
             if lab.startswith("test timed out"):
                 # the native harness never finished: go test's own deadline fired
                 return {"end": "timeout", "label": lab, "observed": [], "raw": raw[-4000:]}
